@@ -408,12 +408,10 @@ pub fn run(c: &mut Ctx) {
                 _ => return c.inconclusive("C05: forger positive control rejected"),
             }
             for p in c02::false_plans(&b, &mut rng, amt, m2).into_iter().filter(|p| p.name.starts_with("committed-lock")) {
-                c.distinct(&format!("forger/{}/{}", p.name, k));
-                let pr = crate::shadow::PayProver::commit(&mut rng, m, &p.w);
-                if let Some((_, c0)) = j.submit(c, &mut rng, "draft", &pr, None, &Scalar::zero(), &p, &p.nonce_pub, amt) {
-                    let _ = j.submit(c, &mut rng, &format!("strategy=honest-but-lying variant={}", p.name), &pr, Some(&pr.responses(&c0)), &c0, &p, &p.nonce_pub, amt);
-                    c.count("forger_attempts", 1);
-                }
+                // every strategy of the forger family: honest-but-lying, answer-as-if-true, post-challenge
+                // scalar commitments
+                c02::run_plan(c, &j, &mut rng, &p, &format!("forger/{}/{}", p.name, k));
+                c.count("forger_plans", 1);
             }
         });
     }
